@@ -1158,7 +1158,11 @@ func (f *Field) Import(rowIDs, columnIDs []uint64, timestamps []*time.Time, opts
 
 		var standard []string
 		if timestamp == nil {
-			standard = []string{viewStandard}
+			// A bit without a timestamp only goes to the standard view, which a
+			// field created with NoStandardView does not have (see SetBit).
+			if !f.options.NoStandardView {
+				standard = []string{viewStandard}
+			}
 		} else {
 			standard = viewsByTime(viewStandard, *timestamp, q)
 			if !f.options.NoStandardView {
